@@ -118,7 +118,13 @@ void ThreadPool::clear() {
 }
 
 void ThreadPool::stop() {
-    m_isRunning = false;
+    {
+        // workers evaluate the flag under this mutex; without it
+        // the notification below could be missed
+        std::scoped_lock locker(m_queueMutex);
+        m_isRunning = false;
+    }
+
     m_condition.notify_all();
 
     {
